@@ -37,6 +37,20 @@ CLAIMS = {
   "for all bases of small shapes and random larger ones, read-back through the real reader, and write-own-basis / continue sequences.",
   COMMON_NOTE + "Names assumed distinct and free of white space; the MPS line tokenizer under the reader is not modelled.",
   "DESIGN.md C14", "Lean 4 proof of the basis-file codec round trip + model/implementation correspondence check"),
+ "C06": ("proof",
+  "Reference model Spec of the editing API in Lean (24 call kinds incl. list/set/named variants, generated-name rule) with its guard and atomicity "
+  "theorems; the real library is compared with Spec after EVERY operation of generated histories through the whole query API (counts, nzcount, "
+  "row-wise coefficients, rhs, sense, range, objective, bounds, objective sense, names, name->index, single coefficients). Partial: the refinement "
+  "proof Store (column store with relocation/compaction) to Spec is not finished, so conformance of the store itself rests on the correspondence run.",
+  COMMON_NOTE + "Duplicate indices inside one added row/column are not generated. symtab.c hashing is modelled as a finite map.",
+  "DESIGN.md C06", "Lean 4 reference model with proved guards + per-operation model/implementation correspondence check"),
+ "C07": ("proof",
+  "Lean theorems over the reference model: each call is rejected exactly outside the documented argument ranges (index in [0,count), known / new "
+  "name, sense in LGER, selector in LUB) and a rejected call - list variants included - leaves the state unchanged, for all states and arguments; "
+  "tied to /repo by calling every public function that takes an index, name, selector, basis or parameter with every boundary value in every "
+  "lifecycle state (empty, loaded, solved, edited, shrunk) inside forked ASan children and comparing return code and the complete before/after dump.",
+  COMMON_NOTE + "NULL pointer arguments are not exercised. The internal flag factorok is not counted as observable state.",
+  "DESIGN.md C07", "Lean 4 proof of guard exactness and atomicity over the reference model + boundary-value correspondence check"),
 }
 
 NOT_BUILT = "not claimed in this revision: the check for it is not built yet (plan: DESIGN.md section 10)"
